@@ -188,6 +188,15 @@ Fixpoint parse_errs (items : list str) : option (list (Z * Z)) :=
   | i :: r => match parse_err i, parse_errs r with Some e, Some l => Some (e :: l) | _, _ => None end
   end.
 
+(* the PlayReady version: a float with one fractional digit (the listed choices 1.0 .. 4.0; Python writes 2.0 as "2.0"),
+   modelled as tenths *)
+Definition fmt_tenths (t : Z) : str := dec (t / 10) ++ [46; 48 + t mod 10].
+Definition parse_tenths (s : str) : option Z :=
+  match split_on_acc 46 s [] with
+  | [a; [c]] => if all_digits a && negb (str_eqb a []) && is_digit c then Some (10 * dval a + (c - 48)) else None
+  | _ => None
+  end.
+
 (* to_string, as written into the URL (None is spelled "none") *)
 Definition fmt (k : kind) (v : value) : option str :=
   match k, v with
@@ -199,6 +208,8 @@ Definition fmt (k : kind) (v : value) : option str :=
   | KStrOrNone, VOptStr (Some s) => Some s
   | KStr, VStr s => Some s
   | KList, VList l => Some (join_comma l)
+  | KFloatOrNone, VOptInt None => Some s_none
+  | KFloatOrNone, VOptInt (Some t) => Some (fmt_tenths t)
   | KUrl, VOptStr None => Some s_none
   | KUrl, VOptStr (Some s) => Some (quote_plus s)
   | KErrors, VErrs l => Some (join_comma (map fmt_err l))
@@ -220,6 +231,8 @@ Definition parse (k : kind) (s : str) : option value :=
   | KStr => Some (VStr s)
   | KList => if is_none_text s then Some (VList [])
              else Some (VList (filter (fun x => negb (is_none_text x)) (split_comma s)))
+  | KFloatOrNone => if str_eqb s [] || str_eqb s s_none then Some (VOptInt None)
+                    else match parse_tenths s with Some t => Some (VOptInt (Some t)) | None => None end
   | KUrl => if is_none_text s then Some (VOptStr None) else Some (VOptStr (Some s))   (* request.args has decoded it; nothing is decoded twice *)
   | KErrors => if is_none_text s then Some (VErrs [])
                else match parse_errs (split_comma s) with Some l => Some (VErrs l) | None => None end
@@ -251,6 +264,8 @@ Definition legal (k : kind) (v : value) : bool :=
   | KStrOrNone, VOptStr (Some s) => plain s && negb (is_none_text s)
   | KStr, VStr s => plain s
   | KList, VList l => forallb token_ok l
+  | KFloatOrNone, VOptInt None => true
+  | KFloatOrNone, VOptInt (Some t) => 0 <=? t
   | KUrl, VOptStr None => true
   | KUrl, VOptStr (Some s) => forallb is_byte s && negb (is_none_text s)      (* ANY text: reserved characters, '+' and '%' included *)
   | KErrors, VErrs _ => true
@@ -275,5 +290,5 @@ Definition U_MANIFEST := 1. Definition U_VIDEO := 2. Definition U_AUDIO := 4. De
 Definition forwarded (m : Z) (r : orow) (differs_from_default : bool) : bool :=
   differs_from_default && negb (Z.land (o_usage r) m =? 0).
 Definition proved_kind (k : kind) : bool :=
-  match k with KBool | KIntOrNone | KIntDefault _ | KStrOrNone | KStr | KList | KUrl | KErrors | KAst | KDrm => true | _ => false end.
+  match k with KBool | KIntOrNone | KIntDefault _ | KStrOrNone | KStr | KList | KUrl | KErrors | KAst | KDrm | KFloatOrNone => true | _ => false end.
 Definition modelled_kind (k : kind) : bool := match k with KUnknown => false | _ => true end.
